@@ -270,15 +270,15 @@ PLAN["C15"] = {
     "level": "fault_enumeration",
     "rule": ("fault = the file ends after k bytes. (SmallAllOffsets) for each rapid-drawn small proving system (as C11; files of 3-12 KB) and BOTH formats: EVERY cut offset 0..len-1 through UnsafeReadFrom on a bytes reader (exhaustive per file), "
              "and every ~150th offset plus the last through ReadSystemFromFile on a truncated temp file. (Real) real systems of tens of MB (quick: insertion (1,1) raw; thorough: + compressed and deletion (3,2)): all offsets 0..8, each section "
-             "boundary +-{0,1,2,7,8,9,63,64,65}, 1/2/9 bytes short of complete, and rapid-drawn offsets inside the proving-key, verifying-key and constraint-system sections, through the reader, ReadSystemFromFile and (thorough) the CLI commands "
-             "prove/verify/export-vk/convert-to-raw/start. Oracle: an error is returned (non-zero exit; 'start' never keeps running), no panic, an answer within 50x the time of a full read + 5 s; the complete file loads (positive control per file). "
+             "boundary +-{0,1,2,7,8,9,63,64,65}, 1/2/9 bytes short of complete, and rapid-drawn offsets inside the proving-key, verifying-key and constraint-system sections, through the reader, ReadSystemFromFile, cuts at multiples of the 4 MiB read buffer through the file path, and the CLI commands "
+             "prove/verify/export-vk/convert-to-raw/start on a grid of cut points (with VALID parameters/proof on stdin, so that only the keys file can be at fault; a panic trace on stderr counts as a violation). Oracle: an error is returned (non-zero exit; 'start' never keeps running), no panic, an answer within 50x the time of a full read + 5 s; the complete file loads (positive control per file). "
              "Non-trivial = offset >= 8 (past the header); enumerated offsets are distinct by construction, drawn ones by SHA-1."),
     "assumptions": A_COMMON + ["only strict prefixes of valid files are in the domain; arbitrary corrupt bytes are not fed to the reader (gnark allocates from length prefixes)"],
     "technique": "fault enumeration over every truncation point of small files; structured and sampled truncation points of real files",
     "level_text": "Fault enumeration: exhaustive over all cut points for several small systems per run in both formats (tens of thousands of prefixes), structured + sampled cut points on real multi-MB files.",
     "level_note": "exhaustive only for the small systems; the reader code is the same for small and real systems, section sizes differ",
     "quick": [{"test": "TestC15_SmallAllOffsets", "checks": 2, "shards": 4, "timeout": 900},
-              {"test": "TestC15_Real", "checks": 40, "timeout": 900}],
+              {"test": "TestC15_Real", "checks": 40, "cli": True, "timeout": 900}],
     "thorough": [{"test": "TestC15_SmallAllOffsets", "checks": 5, "shards": 10, "timeout": 3000},
                  {"test": "TestC15_Real", "checks": 150, "shards": 4, "cli": True, "timeout": 3000}],
 }
